@@ -22,7 +22,12 @@ Grammar of a decision list: the body is a sequence of statements
   EXPR ::= true | false | TERM { + TERM }        TERM ::= ID | "lit" | 'c'
 where ID is one of the function's parameters.
 
-Round four adds two more items:
+Round four adds:
+  * `hasPrefix` / `hasSuffix` (stringutility.hh) - statement grammar
+        size_t LEN = strlen(PAT) ;   if ( SIZECMP ) return false ;   [typename C::const_iterator|auto] IT = c.begin() ;
+        std::advance(IT, c.size() - LEN) ;   return [SIZECMP &&] std::equal(PAT, PAT+LEN, IT | c.begin()) ;
+    SIZECMP = a comparison between c.size() and LEN in any spelling (also `!( )`); the translator evaluates the guards on
+    a small grid and insists that std::equal is only reached with c.size() >= LEN (otherwise: fallback),
   * `prettyPath` (both overloads) - straight-line "string programs": a sequence of
         std::string V = EXPR ;   V = EXPR ;   V += TERM ;   V.resize(V.size()-K) ; | V.pop_back() ; | V.erase(V.size()-K) ;
         bool B = BEXPR ;   if ( COND ) <one of the above> ;   [else] if ( COND ) return EXPR ;   return EXPR ;
